@@ -192,15 +192,17 @@ Definition post_spec_b (x : post_in) (form : option string) (received : ures) : 
 
 (* ================================================================== HTTP-Redirect and artifact URLs *)
 
-(* the URL still names the destination, the destination's own parameters are intact,
-   and exactly [params] were added *)
+(* the URL still names the destination (scheme, host, path and fragment unchanged), the
+   destination's own parameters are intact, and exactly [params] were added after them *)
 Definition delivers (loc url : string) (params : list (string * string)) : Prop :=
   parse_qsl (url_query url) = (parse_qsl (url_query loc) ++ params)%list
-  /\ url_base url = url_base loc.
+  /\ url_base url = url_base loc
+  /\ url_fragment url = url_fragment loc.
 
 Definition delivers_b (loc url : string) (params : list (string * string)) : bool :=
   attrs_eqb (parse_qsl (url_query url)) (parse_qsl (url_query loc) ++ params)%list
-  && String.eqb (url_base url) (url_base loc).
+  && (String.eqb (url_base url) (url_base loc)
+      && String.eqb (url_fragment url) (url_fragment loc)).
 
 Record redir_in := { r_msg : string; r_loc : string; r_rs : string; r_typ : string }.
 
@@ -215,20 +217,25 @@ Definition redir_spec (x : redir_in) (url : option string) (received : ures) : P
     /\ delivers (r_loc x) u (nonblank [(r_typ x, payload); ("RelayState", r_rs x)])
     /\ (if saml_typ (r_typ x) then received = UOk (r_msg x) else payload = r_msg x).
 
+(* (written with shared sub-terms: the correspondence check evaluates it a few thousand times) *)
 Definition redir_spec_b (x : redir_in) (url : option string) (received : ures) : bool :=
   negb (redir_defined x) ||
   match url with
   | None => false
   | Some u =>
+      let q := parse_qsl (url_query u) in
+      let q0 := parse_qsl (url_query (r_loc x)) in
+      let same := String.eqb (url_base u) (url_base (r_loc x)) && String.eqb (url_fragment u) (url_fragment (r_loc x)) in
+      let dl := fun params => attrs_eqb q (q0 ++ params)%list && same in
       if saml_typ (r_typ x) then
-        let cand := match nth_error (parse_qsl (url_query u)) (List.length (parse_qsl (url_query (r_loc x)))) with
+        let cand := match nth_error q (List.length q0) with
                     | Some kv => snd kv
                     | None => ""
                     end in
-        (delivers_b (r_loc x) u (nonblank [(r_typ x, cand); ("RelayState", r_rs x)])
-         || delivers_b (r_loc x) u (nonblank [(r_typ x, ""); ("RelayState", r_rs x)]))
+        (if dl (nonblank [(r_typ x, cand); ("RelayState", r_rs x)]) then true
+         else dl (nonblank [(r_typ x, ""); ("RelayState", r_rs x)]))
         && ures_eqb received (UOk (r_msg x))
-      else delivers_b (r_loc x) u (nonblank [(r_typ x, r_msg x); ("RelayState", r_rs x)])
+      else dl (nonblank [(r_typ x, r_msg x); ("RelayState", r_rs x)])
   end.
 
 Record arturl_in := { u_art : string; u_dest : string; u_rs : string }.
@@ -239,17 +246,19 @@ Definition arturl_spec (x : arturl_in) (url : string) : Prop :=
 Definition arturl_spec_b (x : arturl_in) (url : string) : bool :=
   delivers_b (u_dest x) url (nonblank [("SAMLart", u_art x); ("RelayState", u_rs x)]).
 
+(* URI binding (use_http_uri, request side): the identifier travels as parameter ID *)
+Record uriurl_in := { i_id : string; i_dest : string; i_rs : string }.
+
+Definition uriurl_spec (x : uriurl_in) (url : string) : Prop :=
+  delivers (i_dest x) url (nonblank [("ID", i_id x); ("RelayState", i_rs x)]).
+
+Definition uriurl_spec_b (x : uriurl_in) (url : string) : bool :=
+  delivers_b (i_dest x) url (nonblank [("ID", i_id x); ("RelayState", i_rs x)]).
+
 (* ================================================================== SOAP *)
 
 (* the message without its XML declaration: the document element (and what follows it) *)
 Definition decl_start (t : string) : bool := String.eqb (lower (take 5 t)) "<?xml".
-
-Fixpoint last_is (c : ascii) (s : string) : bool :=
-  match s with
-  | EmptyString => false
-  | String d EmptyString => Ascii.eqb d c
-  | String _ r => last_is c r
-  end.
 
 Definition body_of (t : string) : option string :=
   if starts "<?xml" t then
@@ -332,20 +341,30 @@ Definition art_spec_b (x : art_in) (dest : ares) : bool :=
   | _ => true
   end.
 
-(* ================================================================== guards: inputs outside the known-finding classes *)
+(* ================================================================== guards and finding classes *)
 
-(* class 2 (http_redirect_message): the destination has a fragment, or a '?' with nothing after it *)
-Definition loc_ok (loc : string) : bool :=
-  negb (has c_hash loc) && (negb (has c_qm loc) || negb (is_empty (url_query loc))).
-
-(* class 3 (use_http_artifact): the destination already has a query or a fragment *)
-Definition dest_plain (dest : string) : bool := negb (has c_hash dest) && negb (has c_qm dest).
+(* ---- open classes: the theorems hold outside them *)
 
 (* class 1 (create_artifact): the endpoint index does not fit two hexadecimal digits *)
 Definition idx_ok (idx : nat) : bool := (idx <? 256)%nat.
 
-(* class 4 (make_soap_enveloped_saml_thingy): the literal text of a double-quoted UTF-8 XML
-   declaration occurs inside the message body *)
+(* ---- repaired classes: no theorem is guarded by these any more; Corr.cls uses them to
+   recognise a regression, and the ..._v0_refuted theorems show what was wrong *)
+
+(* class 5 (pack.add_query between fc5e66e9 and d9426b2c): the destination's query component is not
+   empty and ends in '?' ("https://h/p?a=1?", "https://h/p??"); add_query took that '?' for the query delimiter *)
+Definition raw_query (loc : string) : string := after c_qm (before c_hash loc).
+Definition qtail_ok (loc : string) : bool := negb (last_is c_qm (raw_query loc)).
+
+(* class 2 (http_redirect_message before fc5e66e9): the destination has a fragment, or a '?' with nothing after it *)
+Definition loc_ok (loc : string) : bool :=
+  negb (has c_hash loc) && (negb (has c_qm loc) || negb (is_empty (url_query loc))).
+
+(* class 3 (use_http_artifact before fc5e66e9): the destination already has a query or a fragment *)
+Definition dest_plain (dest : string) : bool := negb (has c_hash dest) && negb (has c_qm dest).
+
+(* class 4 (make_soap_enveloped_saml_thingy before 9f16767d): the literal text of a double-quoted
+   UTF-8 XML declaration occurs inside the message body *)
 Definition occurs (sub s : string) : bool := match find sub s with Some _ => true | None => false end.
 Definition body_ok (t : string) : bool :=
   match body_of t with Some b => negb (occurs PREFIX b) | None => true end.
